@@ -1,0 +1,12 @@
+//go:build verif
+
+// Contracts for the deductive verification in /verif (comment-only; compiled code is unaffected).
+// The network client (sender/grpc) is not verified against these: they are assumptions about peers' replies
+// (any reply is possible; nothing is promised about its contents).
+package sender
+
+//@ iface Service.SendContribution(self, ctx, recipient, account, distributionSecret, verificationVector)
+//@ iface Service.Prepare(self, ctx, recipient, account, passphrase, threshold, participants)
+//@ iface Service.Execute(self, ctx, recipient, account)
+//@ iface Service.Commit(self, ctx, recipient, account, confirmationData)
+//@ iface Service.Abort(self, ctx, recipient, account)
